@@ -374,7 +374,7 @@ class StmtMixin:
                 self.effect("iteration", self.exact_builtin_container(src), node)
             seqv = self.seq_of(src)
             n = L.len_(seqv.term)
-            et = self.elem_tag(seqv)
+            et = self.elem_tag(seqv) or ("Val" if self.tainted(src) else None)
             elem = lambda i: self.retag(L.nth(seqv.term, i), et)
         self._loop_has_effects = body_has_effects(node.body)
         names, fields = assigned_names(node.body)
